@@ -278,7 +278,7 @@ fn named_values(ctx: &Ctx, rep: &mut Report) {
 // ---------------------------------------------------------------------------
 fn paths(ctx: &Ctx, rep: &mut Report) {
     let syms = ["/", "a", ".", "é"];
-    let maxlen = if ctx.thorough() { 9 } else { 6 };
+    let maxlen = if ctx.thorough() { 9 } else { 8 };
     let strings = mccore::strings_upto_count(4, maxlen);
     let radices = [strings, 3];
     let n = product(&radices);
@@ -438,7 +438,7 @@ fn hist_actions() -> Vec<H> {
 fn histories(ctx: &Ctx, rep: &mut Report) {
     let acts = hist_actions();
     let k = acts.len() as u64;
-    let maxlen = if ctx.thorough() { 5 } else { 3 };
+    let maxlen = if ctx.thorough() { 5 } else { 4 };
     let n = mccore::strings_upto_count(k, maxlen);
     ctx.family(
         rep,
